@@ -129,11 +129,16 @@ def gen(rng, tier, index):
     dt = dts[int(rng.integers(len(dts)))]
     n = int(rng.choice([1, 2, 3, int(rng.integers(4, 40))]))
     t0 = str(rng.choice(["0", "0", "0", "0.1", "1", "0.3"]))
-    kind = str(rng.choice(["multiple", "multiple", "multiple", "half", "frac"]))
+    kind = str(rng.choice(["multiple", "multiple", "multiple", "half", "frac", "frac_small", "frac_tiny"]))
     if kind == "multiple":
         t1 = float(Decimal(t0) + Decimal(dt) * n)
     elif kind == "half":
         t1 = float(Decimal(t0) + Decimal(dt) * n - Decimal(dt) / 2)
+    elif kind == "frac_small":
+        # the final time lies just after a grid point: (t1 - t0) / dt = n - 1 + 0.3
+        t1 = float(Decimal(t0) + Decimal(dt) * n - Decimal(dt) * Decimal("0.7"))
+    elif kind == "frac_tiny":
+        t1 = float(Decimal(t0) + Decimal(dt) * n - Decimal(dt) * Decimal("0.97"))
     else:
         t1 = float(Decimal(t0) + Decimal(dt) * n - Decimal(dt) * Decimal("0.3"))
     plan["t0"], plan["t1"], plan["dt"], plan["t1_kind"], plan["n"] = float(t0), t1, float(dt), kind, n
